@@ -269,17 +269,28 @@ func runC47(c *Ctx) {
 		release := f.CallTo(c.FuncObj("breaker", "CircuitBreaker.release"))
 		rec := f.CallTo(c.FuncObj("breaker", "CircuitBreaker.record"))
 		invoke := f.CallTo(c.FuncObj("breaker", "CircuitBreaker.invoke"))
-		acquired := f.CondEdges(func(e ast.Expr) bool { id, ok := e.(*ast.Ident); return ok && id.Name == "acquired" }, true)
+		// allowed, acquired: the two results of tryAcquire
+		var allowedObj, acquiredObj types.Object
+		ast.Inspect(ex.Decl.Body, func(n ast.Node) bool {
+			if as, ok := n.(*ast.AssignStmt); ok && len(as.Lhs) == 2 && len(as.Rhs) == 1 {
+				if call, ok := as.Rhs[0].(*ast.CallExpr); ok && callee(info, call) == c.FuncObj("breaker", "CircuitBreaker.tryAcquire") {
+					allowedObj, acquiredObj = objOf(info, as.Lhs[0]), objOf(info, as.Lhs[1])
+				}
+			}
+			return true
+		})
+		isVar := func(e ast.Expr, o types.Object) bool { id, ok := e.(*ast.Ident); return ok && o != nil && info.ObjectOf(id) == o }
+		acquired := f.CondEdges(func(e ast.Expr) bool { return isVar(e, acquiredObj) }, true)
 		// acquired ⇒ release at every exit (deferred)
 		w := f.AfterEdgesMustPass(acquired, release, nil)
 		c.Check(w == nil && len(acquired) > 0, "acquired⇒released", "an acquired probe slot is released on every exit", c.P.Pos(ex.Decl.Pos()), f.describe(w))
 		w = f.search(searchSpec{avoidEdges: acquired, target: release})
 		c.Check(w == nil, "release-only-if-acquired", "a slot is released only by the call that acquired it", c.P.Pos(ex.Decl.Pos()), f.describe(w))
 		c.WhoMayCall("who", c.FuncObj("breaker", "CircuitBreaker.release"), map[string]string{"breaker.(*CircuitBreaker).Execute": ""})
-		rejected := f.CondEdges(func(e ast.Expr) bool { id, ok := e.(*ast.Ident); return ok && id.Name == "allowed" }, false)
+		rejected := f.CondEdges(func(e ast.Expr) bool { return isVar(e, allowedObj) }, false)
 		w = f.AfterEdgesMayReach(rejected, nil, nil, Or(invoke, rec))
 		c.Check(w == nil && len(rejected) > 0, "rejected⇏invoke", "a rejected call runs nothing and records nothing", c.P.Pos(ex.Decl.Pos()), f.describe(w))
-		admitted := f.CondEdges(func(e ast.Expr) bool { id, ok := e.(*ast.Ident); return ok && id.Name == "allowed" }, true)
+		admitted := f.CondEdges(func(e ast.Expr) bool { return isVar(e, allowedObj) }, true)
 		c.guardedBy(f, admitted, invoke, "invoke-only-if-admitted", "the protected function runs only over the edge on which tryAcquire admitted the call", c.P.Pos(ex.Decl.Pos()))
 		w = f.MayReach(f.Find(rec), nil, rec)
 		c.Check(w == nil && len(f.Find(rec)) == 2, "one-outcome", "a completed call records at most one outcome", c.P.Pos(ex.Decl.Pos()), f.describe(w))
@@ -304,10 +315,21 @@ func runC47(c *Ctx) {
 		info := f.Info
 		toOpen := f.CallTo(c.FuncObj("breaker", "CircuitBreaker.toOpen"))
 		toClosed := f.CallTo(c.FuncObj("breaker", "CircuitBreaker.toClosed"))
+		// the sample count is whatever is compared with the configured minRequests
+		vsMinRequests := func(e ast.Expr) bool {
+			return containsNode(e, func(n ast.Node) bool {
+				sel, ok := n.(*ast.SelectorExpr)
+				if !ok {
+					return false
+				}
+				fv := selField(info, sel)
+				return fv != nil && fv.Name() == "minRequests"
+			})
+		}
 		below := f.EdgesWhere(func(cond ast.Expr) (bool, bool) {
 			cm, ok := asCmp(cond, true)
 			if ok && cm.Op == token.LSS {
-				if o := objOf(info, cm.L); o != nil && o.Name() == "total" {
+				if objOf(info, cm.L) != nil && vsMinRequests(cm.R) {
 					return true, true
 				}
 			}
@@ -316,8 +338,7 @@ func runC47(c *Ctx) {
 		w := f.AfterEdgesMayReach(below, nil, nil, Or(toOpen, toClosed))
 		c.Check(w == nil && len(below) > 0, "min-requests-first", "below minRequests the breaker neither opens nor closes", c.P.Pos(rc.Decl.Pos()), f.describe(w))
 		enough := f.FactEdges(func(cm cmp) bool {
-			o := objOf(info, cm.L)
-			return cm.Op == token.GEQ && o != nil && o.Name() == "total"
+			return cm.Op == token.GEQ && objOf(info, cm.L) != nil && vsMinRequests(cm.R)
 		})
 		c.guardedBy(f, enough, Or(toOpen, toClosed), "transition-only-with-min-requests", "a state transition is decided only over the edge on which the window holds at least minRequests samples", c.P.Pos(rc.Decl.Pos()))
 		rate := f.EdgesWhere(func(cond ast.Expr) (bool, bool) {
